@@ -324,3 +324,81 @@ func C17_Precision() {
 		}
 	}
 }
+
+var _ = reg("C17_CastValues", C17_CastValues)
+
+// tzContextLoc: as tzContext, also returning the zone itself for the oracle.
+func tzContextLoc() (context.Context, *time.Location) {
+	switch nd.Choice(3) {
+	case 0:
+		return context.Background(), time.UTC
+	case 1:
+		offs := []int{-43200, -14400, 19800, 50400}
+		if nd.Thorough() {
+			offs = []int{-43200, -34200, -14400, -3600, 3600, 19800, 20700, 36000, 45900, 50400}
+		}
+		q := int(nd.Byte())
+		nd.Assume(q < len(offs))
+		loc := time.FixedZone("", offs[q])
+		return types.ContextWithTZ(context.Background(), loc), loc
+	}
+	loc, err := time.LoadLocation("America/New_York")
+	if err != nil {
+		return context.Background(), time.UTC
+	}
+	return types.ContextWithTZ(context.Background(), loc), loc
+}
+
+// C17_CastValues: the value of every cast that involves the context zone,
+// against the time package used directly: a timestamptz cast to date / time /
+// timestamp is the calendar day / time of day / local date-time of its
+// instant in the context zone; a date or timestamp cast to timestamptz is
+// that local date-time interpreted in the context zone. Compared with == on
+// values of the target type built from independently formatted text.
+func C17_CastValues() {
+	ctx, loc := tzContextLoc()
+	opts := []exec.Option{exec.WithTZ()}
+	eq := func(method, a, e string) int {
+		return cmpOutcome(ctx, "$a."+method+"() == $b."+method+"()", a, e, opts)
+	}
+	switch nd.Choice(3) {
+	case 0:
+		// timestamptz -> date / time / timestamp
+		src := dtString(tTimestampTZ, digit())
+		layout := "2006-01-02T15:04:05Z07:00"
+		if src[10] == ' ' {
+			layout = "2006-01-02 15:04:05Z07:00"
+		}
+		t, err := time.Parse(layout, src)
+		if err != nil {
+			nd.Assume(false)
+		}
+		l := t.In(loc)
+		nd.Assert(eq("date", src, l.Format("2006-01-02")) == oT, "C17/cast-value/timestamptz.date/not-the-day-in-the-context-zone")
+		nd.Assert(eq("time", src, l.Format("15:04:05")) == oT, "C17/cast-value/timestamptz.time/not-the-time-of-day-in-the-context-zone")
+		nd.Assert(eq("timestamp", src, l.Format("2006-01-02T15:04:05")) == oT, "C17/cast-value/timestamptz.timestamp/not-the-local-date-time-in-the-context-zone")
+	case 1:
+		// date -> timestamptz: midnight of that day in the context zone
+		src := dtString(tDate, digit())
+		d, err := time.ParseInLocation("2006-01-02", src, loc)
+		if err != nil {
+			nd.Assume(false)
+		}
+		nd.Assert(eq("timestamp_tz", src, d.Format("2006-01-02T15:04:05Z07:00")) == oT, "C17/cast-value/date.timestamp_tz/not-midnight-in-the-context-zone")
+		nd.Assert(eq("timestamp", src, d.Format("2006-01-02T15:04:05")) == oT, "C17/cast-value/date.timestamp/not-midnight")
+	case 2:
+		// timestamp -> timestamptz / date / time
+		src := dtString(tTimestamp, digit())
+		layout := "2006-01-02T15:04:05"
+		if src[10] == ' ' {
+			layout = "2006-01-02 15:04:05"
+		}
+		t, err := time.ParseInLocation(layout, src, loc)
+		if err != nil {
+			nd.Assume(false)
+		}
+		nd.Assert(eq("timestamp_tz", src, t.Format("2006-01-02T15:04:05Z07:00")) == oT, "C17/cast-value/timestamp.timestamp_tz/not-the-local-time-in-the-context-zone")
+		nd.Assert(eq("date", src, t.Format("2006-01-02")) == oT, "C17/cast-value/timestamp.date/not-the-date-part")
+		nd.Assert(eq("time", src, t.Format("15:04:05")) == oT, "C17/cast-value/timestamp.time/not-the-time-part")
+	}
+}
